@@ -9,7 +9,7 @@ from vcheck import Inconclusive, read_ndjson
 def run_codec(ctx, prefix, test, what):
     ctx.mc("WireCodecMC", "WireCodecMC.cfg", workers=8)
     ctx.neg("WireCodecMC", "WireCodecNeg.cfg", expect="I_TimeoutRef", workers=2)
-    binary = ctx.go_build("internal/transport")
+    binary = ctx.go_build("internal/transport", only=r"zz_verif_codec_")
     tpath = os.path.join(ctx.run, "pairs.ndjson")
     n = ctx.pick(3000, 60000)
     out = ctx.driver(binary, test, {"VERIF_OUT": tpath, "VERIF_N": n})
